@@ -39,7 +39,7 @@ class Mon:
     acks were accepted.  `viol` collects (property, text)."""
 
     __slots__ = ("ver", "max", "manual", "dead", "breach", "coll", "unacked", "released", "parked",
-                 "inc2", "inorder", "viol", "nontrivial", "limit", "alias_max", "aliases", "prev_held")
+                 "inc2", "inorder", "viol", "nontrivial", "limit", "alias_max", "aliases", "prev_held", "handed_back")
 
     def __init__(self, ver, mx, manual):
         self.ver, self.max, self.manual = ver, mx, manual
@@ -57,6 +57,7 @@ class Mon:
         self.alias_max = 0       # v5: broker's topic-alias-maximum
         self.aliases = set()     # v5: inbound aliases the broker has defined
         self.prev_held = 0
+        self.handed_back = []    # what the last CLEAN returned and has not been replayed yet
 
     def copy(self):
         m = Mon.__new__(Mon)
@@ -69,6 +70,7 @@ class Mon:
         m.viol = list(self.viol)
         m.nontrivial = set(self.nontrivial)
         m.limit, m.alias_max, m.aliases, m.prev_held = self.limit, self.alias_max, set(self.aliases), self.prev_held
+        m.handed_back = list(self.handed_back)
         return m
 
     def v(self, prop, text):
@@ -159,6 +161,12 @@ class Mon:
                     return
             if q != "0" and self.coll:
                 self.breach = self.breach or "publish handed over while a collision is parked"
+            if q != "0" and i != 0:
+                item = "PUB:%s:%d:%s:%s" % (q, i, tp, pl)
+                if item in self.handed_back:
+                    self.handed_back.remove(item)
+                else:
+                    self.breach = self.breach or "publish with a preset id that the last clean() did not hand back"
             if q != "0" and i > self.limit:
                 if not (st == "ERR" and body == "Unsolicited:%d" % i):
                     self.v("C07", "%s: id above the limit accepted (%s %s)" % (what, st, body))
@@ -228,9 +236,10 @@ class Mon:
             return
         if k == "PUBREL":
             i = int(r[1])
-            if not 1 <= i <= self.limit or i in self.unacked or i in self.released:
+            if not 1 <= i <= self.limit or i in self.unacked or i in self.released or ("PUBREL:%d" % i) not in self.handed_back:
                 self.breach = self.breach or "PubRel request for an id that did not come from clean()"
                 return
+            self.handed_back.remove("PUBREL:%d" % i)
             if not (st == "OK" and body == "PUBREL:%d" % i):
                 self.v("C10", "%s: %s %s" % (what, st, body))
             self.released.append(i)
@@ -396,6 +405,7 @@ class Mon:
         if evs:
             self.v("C10", "CLEAN queued notifications %s" % evs)
         self.unacked, self.released, self.parked, self.inc2 = {}, [], None, set()
+        self.handed_back = list(got)
 
 
 def monitor_history(lines, answers):
